@@ -21,7 +21,6 @@ REQUIRED = ['ci_linear', 'ci_log', 'ci_contains', 'ci_nested', 'ci_exp_contains'
             'xfit_ic_rd_generated', 'xfit_ic_rr_generated', 'xfit_ic_or_generated', 'xfit_estimates_generated',
             'aipw_calc_ratio_var_generated',
             'joint_estimate_generated',
-<<<<<<< HEAD
             # Props/C06_Calc.lean: the second batch of zepid/calc/utils.py (Gen/Calc2.lean)
             'sens_ci_linear', 'spec_ci_linear', 'sens_indep_alpha', 'spec_indep_alpha', 'sensitivity_eq_risk_ci',
             'specificity_eq_risk_ci', 'sens_reject_iff', 'spec_reject_iff', 'sens_coherent', 'spec_coherent',
@@ -32,12 +31,10 @@ REQUIRED = ['ci_linear', 'ci_log', 'ci_contains', 'ci_nested', 'ci_exp_contains'
             'inverse_logit_roundtrip', 's_value_def', 'screening_per_capita', 'screening_costs',
             'real_calc2_transc_ok', 'real_logit_roundtrip',
             # Props/C06_Icr.lean: interaction_contrast_ratio(ci='delta') of zepid/base.py (Gen/Icr.lean)
-            'icr_delta_def', 'icr_indep_alpha', 'icr_coherent']
-=======
+            'icr_delta_def', 'icr_indep_alpha', 'icr_coherent',
             # Props/C06_Splits.lean: aipw_calculator with splits given (cross-fit AIPTW), regenerated
             'aipw_calc_splits_generated', 'aipw_calc_splits_var_nonneg', 'aipw_calc_splits_one',
             'aipw_calc_splits_ratio_estimate']
->>>>>>> w-C
 RULE = ('alpha runs over a fixed grid (25 equally spaced values in (0,1), the extremes 1e-6/1e-3/0.999, and 0.05 with its '
         'neighbours 0.049999/0.050001); for every (estimator, configuration, data set) the whole grid is evaluated and the '
         'limits, containment, nestedness across the grid and alpha-independence of estimate/se are judged; streams: count '
